@@ -164,3 +164,99 @@ def lib_np_average(eng, st, args, kw, node):
 
 
 LIB[("numpy", "average")] = lib_np_average
+
+
+def ext_submit(eng, st, recv, args, kw, node):
+    """Executor.submit(f, *a): runs f(*a) exactly once (the callable's own contract gives the value) and returns a
+    fresh Future holding it.  The callable must not write shared state (EFF POOL-pure), so the order is immaterial."""
+    f = args[0]
+    val = eng.call_value(st, f, list(args[1:]), dict(kw), node)
+    if val.t[0] != "obj":
+        raise Unsupported("submit of a callable that does not return an object")
+    fut = V(("obj", "Future"), st.new_ref("future"))
+    st.write_field(fut, "value", V(("obj", "Agent"), val.z))
+    eng.ctx.tags.add("AX_concurrent_futures")
+    return fut
+
+
+EXT["submit"] = ext_submit
+
+
+# ---- pydantic model construction ------------------------------------------------------------------------------------------
+def _declared_fields(eng, ci):
+    """(name, annotation ast, default ast|None) of a pydantic model class, base classes first"""
+    out = {}
+    for c in reversed(eng.src.mro(ci)):
+        for node in c.node.body:
+            import ast as _ast
+            if isinstance(node, _ast.AnnAssign) and isinstance(node.target, _ast.Name) and not node.target.id.startswith("_") \
+                    and node.target.id != "model_config":
+                out[node.target.id] = (node.annotation, node.value)
+    return out
+
+
+def construct(eng, st, ci, args, kw, node):
+    """K(**kw) for a class of the repository.  A class with its own __init__ is called through that method's contract;
+    a plain pydantic model gets the assumed constructor contract: fields equal the keyword values after the declared
+    coercions (int -> float), list fields are copied into a fresh list (elements keep their identity)."""
+    if args:
+        raise Unsupported("positional constructor arguments")
+    init = eng.src.find_method(ci, "__init__")
+    if init is not None:
+        c = eng.method_contract(ci, "__init__")
+        if c is None:
+            raise Unsupported(f"{ci.name}.__init__ has no contract")
+        ref = V(("obj", ci.name), st.new_ref(ci.name.lower()))
+        env = eng.bind_args(init[0], [], dict(kw), node, self_v=ref)
+        eng.apply_contract(st, c, init[0], eng.src.modules[init[1].module], env, node)
+        return ref
+    decl = _declared_fields(eng, ci)
+    ref = V(("obj", ci.name), st.new_ref(ci.name.lower()))
+    for name, (ann, default) in decl.items():
+        if name not in eng.reg.field_types:
+            raise Unsupported(f"field {ci.name}.{name} is not declared in the contracts")
+        if name in kw:
+            v = kw[name]
+            ft = st.field_type(name)
+            base = ft[1] if ft[0] == "opt" else ft
+            if base[0] == "list" and v.t[0] in ("list", "nd"):
+                v = st.new_seq(base[1], "list", st.seq_len(v), st.seq_elems(v), "field")   # pydantic copies lists
+            st.write_field(ref, name, v)
+        elif default is not None:
+            st.write_field(ref, name, eng.eval(st, default))
+        else:
+            raise Unsupported(f"missing required field {name} of {ci.name}")
+    # validators of the class run after the fields are set; each must have a contract with a `raises` clause
+    import ast as _ast
+    for c_ in eng.src.mro(ci):
+        for mname, m in c_.methods.items():
+            decs = [d for d in m.decorator_list if isinstance(d, _ast.Call) and getattr(d.func, "id", "") in ("field_validator", "model_validator")]
+            if not decs:
+                continue
+            vc = eng.reg.get(f"{c_.qname}.{mname}")
+            if vc is None:
+                raise Unsupported(f"validator {c_.name}.{mname} has no contract")
+            d = decs[0]
+            if d.func.id == "field_validator":
+                fname = d.args[0].value
+                env = {"cls": static("class", ci), "v": st.read_field(ref, fname)}
+            else:
+                env = {"self": ref}
+            eng.apply_contract(st, vc, m, eng.src.modules[c_.module], env, node)
+    eng.ctx.tags.add("AX_pydantic_constructor")
+    return ref
+
+
+BuiltinMixin.construct = construct
+
+
+def lib_np_dot(eng, st, args, kw, node):
+    a, b = args
+    if a.t[0] in ("list", "nd") and b.t[0] in ("list", "nd"):
+        f = z3.Function("dot", st.seq_elems(a).sort(), st.seq_elems(b).sort(), z3.IntSort(), eng.ctx.fsort())
+        eng.ctx.tags.add("AX_numpy_dot_is_a_function_of_the_elements")
+        return V(("float",), f(st.seq_elems(a), st.seq_elems(b), st.seq_len(a)))
+    raise Unsupported(f"np.dot of {a.t} and {b.t}")
+
+
+LIB[("numpy", "dot")] = lib_np_dot
